@@ -389,9 +389,9 @@ def run(ctx):
         for cell, shp in (((0, 1), (2, 3)), ((1, 1), (3, 3)), ((0, 0), (2, 2)), ((1, 0), (3, 2))):
             nb = get_neighbors_in_bounds(np.array(cell), np.array(shp))
             if len(nb): nb[:] = nb[0]
-        shape = np.array([2, 2])
+        shape = np.array([2, 2]); sweep = []
         for step in range(6):
-            np.random.seed(ctx.rng.randrange(2**32))
+            sd = ctx.rng.randrange(2**32); np.random.seed(sd); sweep.append([int(shape[0]), int(shape[1]), sd])
             with WTap() as t:
                 m = LG2.gen_wilson(shape)
             r, c = int(shape[0]), int(shape[1])
@@ -404,7 +404,12 @@ def run(ctx):
             pending.append((r, c, e, t, dict(op="C19.run", rows=r, cols=c, draws=t.draws)))
             shape[step % 2] += 1 if step < 3 else -1
     except TooManyDraws:
-        ctx.disagree("gen_wilson did not finish on a re-used shape array", dict())
+        # draws here are genuinely random (numpy seeded, nothing scripted): on a grid of at most 9 cells Wilson's walk ends within a few dozen
+        # draws; 200000 draws without returning has probability far below 1e-9 under the proven law (C19_geometric_decay), so this history
+        # is reported as a failing input: the call does not return a sample at all
+        ctx.violate(f"gen_wilson did not return within 200000 random draws on a {sweep[-1][0]}x{sweep[-1][1]} grid when called with ONE shape array object that "
+                    f"the caller changes in place between calls (a size sweep); calls so far (rows, cols, numpy seed): {sweep}",
+                    dict(rows=sweep[-1][0], cols=sweep[-1][1], sweep=sweep, reused_shape_array=True))
     # very long walks (a legal execution however unlikely): any step budget / cap / restart logic shows here
     for (r, c) in [(2, 2), (2, 3), (3, 3), (4, 4), (3, 6)] + ([] if ctx.quick else [(5, 5), (6, 6), (8, 8)]):
         sc = long_walk_script(r, c, 40 * r * c + 7)
@@ -592,6 +597,17 @@ def replay(ctx, rp):
     c = rp["case"]
     r, cc = c["rows"], c["cols"]
     span = spanning_masks_py(r, cc)
+    if c.get("reused_shape_array"):
+        from maze_dataset.generation.generators import LatticeMazeGenerators as LG2
+        shape = np.array(c["sweep"][0][:2])
+        try:
+            for (rr, c2, sd) in c["sweep"]:
+                shape[0], shape[1] = rr, c2; np.random.seed(sd)
+                with WTap() as t:
+                    LG2.gen_wilson(shape)
+        except TooManyDraws:
+            ctx.violate(f"replay: gen_wilson did not return within 200000 random draws on the size sweep {c['sweep']} (one shape array object)", c)
+        return
     if "seeds" in c:
         from concurrent.futures import ProcessPoolExecutor
         per = c["samples"] // len(c["seeds"])
